@@ -22,6 +22,10 @@ def _concrete_state(fut):
 def method(I, fut: SFuture, name, args, kwargs):
     I.ctx.assumptions_used.add("external:asyncio.Future")
     st = fut.state
+    if I.in_old and I.old_view is not None and fut.oid in I.old_view:
+        st = I.old_view[fut.oid]["state"]
+        if name not in ("done", "cancelled"):
+            raise Unsupported(f"Future.{name} inside old(...)")
     if name == "done":
         return I.as_bool_value(z3.simplify(st != PENDING))
     if name == "cancelled":
